@@ -162,6 +162,13 @@ def judge(out, case, it, oc, exc, ctx):
             remove = F(rt)
         trs.append({'start': F(b[4]), 'V': F(num(node['total'])), 'L': L, 'remove': remove})
         keys.append((key, b, okev))
+    # a transfer whose scope was left is interrupted: nothing of it may run (or occupy the pipe) afterwards
+    s_leave = next((e for e in log if e[1] == 'r0' and e[3] == 'leave' and e[2] == (0,)), None)
+    if s_leave is not None:
+        late = [e for e in log if e[0] > s_leave[0] and e[1] in case['targets']]
+        if late:
+            out.fail('fluid', 'transfer_outlived_scope', 'scope left at t=%r (seq %d) but %s logged %r afterwards;%s' % (
+                s_leave[4], s_leave[0], late[0][1], late[0][2:5], ctx))
     done, amb = fluid(T, trs)
     removed_midflight = False
     for (key, b, okev), tr, d, a in zip(keys, trs, done, amb):
